@@ -179,8 +179,8 @@ func (w *World) userBody(ui int) {
 		}
 		c := cs.c
 		seq++
-		if cs.udp && op.K != "wake" && op.K != "execute" {
-			continue
+		if cs.udp && op.K != "wake" && op.K != "execute" && !(cs.cp.Dial && (op.K == "close" || op.K == "closecb")) {
+			continue // (a connected UDP socket of a client can be closed like any connection)
 		}
 		switch op.K {
 		case "asyncwrite":
